@@ -188,6 +188,7 @@ class Runner:
     def step(self, s, frame):
         """Send one request to server s; returns frames on its response id; flags anything else."""
         w = self.world
+        s = getattr(self, "remap", {}).get(s, s)        # (a monitor written for server 0 run against another server)
         evs = self.sim.rx(w.req_id(s), frame)
         own, other = [], []
         for (t, cid, dlc, data, failed) in S.txs(evs):
